@@ -5,7 +5,7 @@ from __future__ import annotations
 import ast
 from dataclasses import dataclass
 
-from ..callgraph import External, Special, get_callgraph
+from ..callgraph import MD_RENDER, RENDER_DISPATCH, SPECIAL_EDGES, External, Special, get_callgraph
 from ..corpus import (
     AnchorMissing,
     Corpus,
@@ -174,9 +174,92 @@ class Effects:
         self._memo: dict[tuple, frozenset] = {}
         self._param: dict[tuple, frozenset] = {}
         self.config_cls = corpus.cls(CONFIG_CLS.replace("myst_parser.", "", 1))
-        self.parse_reach = self.g.reachable([corpus.func(e) for e in PARSE_ENTRIES])
-        self.build_reach = self.g.reachable([corpus.func(e) for e in BUILD_ENTRIES])
+        # the engine freezes its special edges per *caller*; a helper extracted from such a caller (the dispatch
+        # body, the directive run, parser.render) must keep the edge: the patterns are applied module-wide here
+        self._special_patterns: dict[str, list[tuple[str, str]]] = {}
+        for caller_fq, specs in SPECIAL_EDGES.items():
+            self._special_patterns.setdefault(caller_fq.split(":")[0], []).extend(specs)
+        self._extra: dict[str, list[FunctionInfo]] = {}
         self._sites: list[Site] | None = None
+        self.parse_reach = self.reachable([corpus.func(e) for e in PARSE_ENTRIES])
+        self.build_reach = self.reachable([corpus.func(e) for e in BUILD_ENTRIES])
+
+    # -- reachability with helper-robust special edges ------------------------------------------
+    def is_parser_value(self, e: ast.expr, fi: FunctionInfo, depth: int = 0) -> bool:
+        """``e`` holds the MarkdownIt built by create_md_parser (local bound from the call, or a parameter fed with one)."""
+        if depth > 3:
+            return False
+        if isinstance(e, ast.Call):
+            return self.callee_name(e, fi).endswith("create_md_parser")
+        if isinstance(e, ast.Name):
+            f, binds = self.lookup(e.id, fi)
+            for kind, v, path in binds or []:
+                if kind == "assign" and v is not None and not path and self.is_parser_value(v, f, depth + 1):
+                    return True
+                if kind == "param":
+                    idx = f.params.index(e.id)
+                    shift = 1 if (f.cls is not None and f.params and f.params[0] in ("self", "cls")) else 0
+                    for cfi, call in self.g.callers().get(f.fq, []):
+                        pos = idx - shift
+                        arg = call.args[pos] if 0 <= pos < len(call.args) else None
+                        for kw in call.keywords:
+                            if kw.arg == e.id:
+                                arg = kw.value
+                        if arg is not None and self.is_parser_value(arg, cfi, depth + 1):
+                            return True
+        return False
+
+    def special_kind(self, call: ast.Call, fi: FunctionInfo) -> str | None:
+        """Kind of dynamic call the engine knows as a frozen special edge, recognised wherever it sits in the module."""
+        text = ast.unparse(call.func)
+        for prefix, kind in self._special_patterns.get(fi.module.name, []):
+            if text == prefix or (text.startswith(prefix) and prefix.endswith(("[", "("))):
+                return kind
+        f = call.func
+        if isinstance(f, ast.Subscript) and isinstance(f.value, ast.Attribute) and f.value.attr == "rules":
+            try:
+                t = self.g.expr_type(f.value.value, fi)
+            except Exception:
+                t = None
+            if t and any(c.name == "DocutilsRenderer" for c in self.c.mro(t[1])):
+                return RENDER_DISPATCH
+        if isinstance(f, ast.Attribute) and f.attr == "render" and self.is_parser_value(f.value, fi):
+            return MD_RENDER
+        return None
+
+    def extra_targets(self, fi: FunctionInfo) -> list[FunctionInfo]:
+        ex = self._extra.get(fi.fq)
+        if ex is not None:
+            return ex
+        ex = []
+        self._extra[fi.fq] = ex
+        for call, targets in self.g.callees(fi):
+            if any(isinstance(t, Special) for t in targets):
+                continue
+            kind = self.special_kind(call, fi)
+            if kind:
+                ex.extend(self.g.special_targets(kind, fi))
+        return ex
+
+    def reachable(self, entries: list[FunctionInfo]) -> dict[str, bool]:
+        seen: dict[str, bool] = {}
+        work = list(entries)
+        while work:
+            fi = work.pop()
+            if fi.fq in seen:
+                continue
+            seen[fi.fq] = True
+            for inner in fi.module.functions.values():
+                if inner.parent_func == fi and inner.fq not in seen:
+                    work.append(inner)
+            for call, targets in self.g.callees(fi):
+                for t in self.g.flat_targets(targets):
+                    if t.fq not in seen:
+                        work.append(t)
+            for t in self.extra_targets(fi):
+                if t.fq not in seen:
+                    work.append(t)
+        return seen
 
     # -- local bindings ---------------------------------------------------------
     def bindings(self, fi: FunctionInfo) -> dict[str, list]:
@@ -766,10 +849,17 @@ def _is_constant_rhs(v: ast.expr | None, fi: FunctionInfo, ef: Effects) -> str |
 
 
 def _render_calls(ef: Effects, fi: FunctionInfo) -> list[ast.Call]:
+    """The call(s) of a parse method that run the renderer: parser.render(...) itself, or the call of a helper
+    that does it (one level)."""
     out = []
     for call, targets in ef.g.callees(fi):
-        if any(isinstance(t, Special) and t.kind == "md-render" for t in targets):
+        if any(isinstance(t, Special) and t.kind == MD_RENDER for t in targets) or ef.special_kind(call, fi) == MD_RENDER:
             out.append(call)
+    if not out:
+        for call, targets in ef.g.callees(fi):
+            for t in ef.g.flat_targets(targets):
+                if not t.is_lambda and t.fq != fi.fq and any(ef.special_kind(c2, t) == MD_RENDER or any(isinstance(x, Special) and x.kind == MD_RENDER for x in tg2) for c2, tg2 in ef.g.callees(t)):
+                    out.append(call)
     return out
 
 
@@ -894,6 +984,10 @@ def r1_effect_classification(corpus: Corpus, rep: Report, tier: str):
         else:
             rep.violation("C15.R1", k, s.site, why)
     _default_role_reset(corpus, ef, rep)
+    rbase = corpus.cls("mdit_to_docutils.base:DocutilsRenderer")
+    unreached = [m.fq for n_, m in rbase.methods.items() if n_.startswith("render_") and m.fq not in ef.parse_reach]
+    if unreached:
+        rep.error("C15.R1", f"{len(unreached)} render_* methods are not reachable from the parse entries in the call graph (e.g. {unreached[0]}): the renderer's dynamic dispatch was not recognised, 'outside parse reach' cannot be trusted")
     if n_sites < 300:
         rep.error("C15.R1", f"only {n_sites} write sites enumerated in the package (expected > 300): the enumeration is broken")
     # the install obligations need the render call to exist
